@@ -656,6 +656,61 @@ func checkSplitAssemble(c *Ctx, rule string) {
 		})
 		c.Check(acc && rng, rule, "sum assembly", fn.Pos(), "total += child.Int over all children", "the combined count is not the sum of every child's integer reply")
 	}
+	// every wrapper's completion looks at every child's reply: a child that failed (backend gone, -OOM, -READONLY ...)
+	// must not be reported as success
+	respFn := p.Func(redisPkg, "(*simpleRequest).Response")
+	for _, tn := range []string{"msetRequest", "mgetRequest", "sumResultRequest"} {
+		nt := p.Named(redisPkg, tn)
+		if nt == nil || respFn == nil {
+			continue
+		}
+		// the done hook by role: the method bound in Split's RegisterHook
+		split := p.Func(redisPkg, "(*"+tn+").Split")
+		var done *ssa.Function
+		if split != nil {
+			eachInstr(split, func(_ *ssa.BasicBlock, _ int, in ssa.Instruction) {
+				if !isMethodCall(in, modPath+"/"+redisPkg, "simpleRequest", "RegisterHook") {
+					return
+				}
+				if g := funcValue(callOf(in).Args[1]); g != nil {
+					done = g
+					if g.Synthetic != "" {
+						eachInstr(g, func(_ *ssa.BasicBlock, _ int, x ssa.Instruction) {
+							if c2 := callOf(x); c2 != nil && calleeFn(c2) != nil {
+								done = calleeFn(c2)
+							}
+						})
+					}
+				}
+			})
+		}
+		if done == nil {
+			c.Undecided(rule, tn+" completion inspects every child", token.NoPos, "done hook not found")
+			continue
+		}
+		reads := false
+		for _, f := range append([]*ssa.Function{done}, staticCalleesDeep(done, 2)...) {
+			eachInstr(f, func(_ *ssa.BasicBlock, _ int, in ssa.Instruction) {
+				call, ok := in.(*ssa.Call)
+				if !ok || !isCallToFn(call, respFn) {
+					return
+				}
+				if derives(call.Call.Args[0], func(v ssa.Value) bool {
+					if ia, ok := v.(*ssa.IndexAddr); ok {
+						if fld, _ := loadedField(ia.X); fld != nil {
+							if sl, ok := fld.Type().Underlying().(*types.Slice); ok && isReqType(sl.Elem()) {
+								return true
+							}
+						}
+					}
+					return false
+				}) {
+					reads = true
+				}
+			})
+		}
+		c.Check(reads, rule, tn+" completion inspects every child", done.Pos(), "the completion reads the reply of the children", "the parent is completed without looking at any child's reply: a child that failed (its backend is gone, -OOM, -READONLY) is reported to the client as success - for MSET a lost write is acknowledged with OK")
+	}
 	c.Expect(rule, 13)
 }
 
